@@ -45,6 +45,10 @@ def new_line(rng, ex, hazards=None):
     if hz.get("long") and rng.random() < 0.05:
         body += " " + "x" * rng.choice([300, 5000, 20000])
     line = "%s %s" % (lid, body)
+    if hz.get("uspace") and rng.random() < 0.35:
+        # non-ASCII Unicode blanks between tokens (NBSP, ideographic space, en quad)
+        sp = rng.choice(["\u00a0", "\u3000", "\u2000", "\u2009"])
+        line = line.replace(" ", sp, rng.randint(1, 3))
     if hz.get("diffish") and rng.random() < 0.2:
         line = rng.choice(hz.get("diffish_pool") or DIFFISH) + line
     if hz.get("indent") and rng.random() < 0.3:
@@ -90,6 +94,7 @@ def pick_pos(rng, ex, lines, bias):
 
 
 EDIT_KINDS = ["insert", "insert", "insert", "delete", "replace", "modify", "reindent", "append"]
+USPACES = "\u00a0\u3000\u2000\u2001\u2002\u2003\u2004\u2005\u2006\u2007\u2008\u2009\u200a"
 POS_CLASSES = ["top", "bottom", "above_ai", "below_ai", "inside_ai", "any", "any"]
 
 
@@ -140,6 +145,27 @@ def mutate(rng, ex, content, who, hazards=None, kinds=None, pos_classes=None, ma
             if lines[i].strip():
                 lines[i] = "    " + lines[i].lstrip() if rng.random() < 0.7 else lines[i].lstrip()
         desc.update(at=pos, n=k)
+    elif kind == "wsnorm":
+        # whitespace-only: normalise Unicode blanks to ASCII spaces (must not change any author)
+        n = 0
+        for i in range(len(lines)):
+            if any(c in USPACES for c in lines[i]):
+                lines[i] = "".join(" " if c in USPACES else c for c in lines[i])
+                n += 1
+        desc.update(n=n)
+    elif kind == "move":
+        # cut a block and paste it elsewhere, sometimes also deleting the line just before the block
+        if len(lines) >= 4:
+            k = min(k + 2, len(lines) - 2)
+            src = rng.randint(0, len(lines) - k)
+            block = lines[src:src + k]
+            drop_before = rng.random() < 0.5 and src > 0
+            rest = lines[:src - 1 if drop_before else src] + lines[src + k:]
+            dst = rng.randint(0, len(rest))
+            lines = rest[:dst] + block + rest[dst:]
+            cut = src - 1 if drop_before else src
+            jumped = rest[min(cut, dst):max(cut, dst)]     # moving A over B is also moving B over A
+            desc.update(at=src, n=k, to=dst, drop_before=drop_before, moved=block + jumped)
     if hz.get("no_final_newline") and rng.random() < 0.25:
         fnl = not fnl
     return join_lines(lines, eol, fnl), desc
